@@ -13,6 +13,8 @@ CHECKS = {
  "C07": ("model_checking", "ActC07: a Deliver step of an event the spec calls Handled leaves the observable state unchanged, evaluated by TLC on every step of every real trace (drivers re-offer all events repeatedly), observable state bound to the real clients.", "6 C07", "TLA+ action property checked by TLC on recorded traces"),
  "C08": ("model_checking", "InvC08 (record = fold of the MLS chain: epoch, name, description, admins, nostr id, relays) evaluated by TLC after every call of every real trace with both the record and the MLS projection bound, plus exhaustive check of the design.", "6 C08", "TLA+ invariant + TLC trace validation (rec/mdata view)"),
  "C03": ("model_checking", "InvC03 (a stored message's holder was a member of the epoch it was sent in) on every state and ActC03 (a client without an operational group neither obtains an application message nor sends) on every step of real membership histories in which observers (never-members, pending, evicted, late joiners) are fed every event and welcome; key knowledge (stored exporter secrets, MLS past-epoch window, rollback restoring older maps) is explicit spec state.", "6 C03", "TLA+ invariant + action property checked by TLC on recorded traces; symbolic cryptography"),
+ "C06": ("model_checking", "ActC06: on every step of every real trace, a process_message call whose result class is a refusal (Err, Unprocessable, PreviouslyFailed, IgnoredProposal) leaves the bound observable state (epoch/chain, members, group data, pending commit and proposals, stored messages, record) unchanged, and no call panics; hostile events are spec events of kind junk (12 classes, incl. tampered copies of real commits/messages that follow the real event's framing up to the AEAD check), instantiated by seeded mutation. Listed findings excused narrowly.", "6 C06", "TLA+ action property checked by TLC on recorded traces with spec-level hostile event classes"),
+ "C14": ("exploration", "Every call of the spec-generated histories (all action/result branches of Marmot.tla incl. rollbacks, evictions, welcomes, restarts) runs with a capturing tracing subscriber and with Display/Debug of every returned error and processing result; a scan for group ids, exporter secrets and the db key (hex and byte-list forms) is attached to each trace line and the trace invariant leak = {} is evaluated by TLC. TLA+ contributes the histories and the coverage labels, not a model of logging — hence exploration.", "6 C14", "scan attached to TLA+-generated histories (trace invariant leak = {})"),
  "C16": ("model_checking", "ProcessWelcome/Accept/Decline are spec actions (dedup by wrapper id, stored welcome by rumor id); InvC16 (Active only by creation or accepted welcome), ActC16Join (joiner lands on the inviter's post-commit chain with the rotation obligation), ActC16 (no welcome call changes a group the user is active in; listed finding excused) are evaluated by TLC on every step of real directed-random invitation scenarios, full group projection bound.", "6 C16", "TLA+ invariant + action properties checked by TLC on recorded traces"),
  "C18": ("model_checking", "InvC18 (cached last-message pointer = head of the default order among non-invalidated messages) evaluated by TLC after every call of every real trace with the pointer and the message table bound; storage-level ordering/pagination is checked by the Storage engine.", "6 C18", "TLA+ invariant + TLC trace validation (last/msgs view)"),
  "C11": ("model_checking", "Restart is a spec action that forgets only the in-memory snapshot queue (re-hydrated lazily from storage); every real history with random restarts on SQLite is validated on the FULL view (groups, messages, pending commit/proposals, welcomes via group state, dedup records, snapshots, results) so any other effect of a restart is a rejected step; convergence/message invariants are evaluated at quiescence. The one known effect (timestamps lost at hydration) is a listed finding.", "6 C11", "TLA+ spec with Restart action + TLC trace validation of real restart histories"),
